@@ -34,3 +34,47 @@ pub fn all() -> Vec<char> {
     v.extend(SPECIALS.iter());
     v
 }
+
+/// Values that some *other* parser of the library would rewrite, reject or
+/// canonicalise (package paths, digest names, package names and patterns,
+/// dependency strings, numbers, booleans, list/command syntax of the other file
+/// formats, URL-ish and shell-ish text).  A store that must keep values verbatim
+/// is tried with each of them.
+pub const TYPED_VALUES: [&str; 96] = [
+    // package paths
+    "../../cat/pkg", "../../cat/pkg/", "../..//cat/pkg", "../../cat//pkg", "cat/pkg", "cat/pkg/", "./cat/pkg", "/cat/pkg",
+    "../../cat/pkg/../x", "../cat/pkg", "../../../cat/pkg", "cat", "..", "../..", "../../cat/pkg ", "../../Cat/Pkg",
+    // digest names and checksum-looking values
+    "sha1 da39a3ee", "SHA1 da39a3ee", "Sha256 00", "blake2s 00", "BLAKE2S 00", "BLAKE2s 00", "md5 x", "rmd160 0", "sha512 0",
+    "SHA1", "sha1", "SHA1  two", "SHA1 (file) = 00", "Size (f) = 3 bytes",
+    // package names, patterns, dependencies
+    "p-1.0", "P-1.0", "p-1.0nb0", "p-1.0nb01", "p-01.0", "p-1.0NB1", "p-1.0RC1", "p>=1", "p>=1<2", "{a,b}-[0-9]*", "p-[0-9]*:../../cat/pkg",
+    "p-[0-9]*:cat/pkg", "p-[0-9]*", "p-*", "{a,b}", "p-1.0{,nb1}",
+    // numbers
+    "007", "+5", "-0", "0x10", "1e3", "1_000", " 5", "5 ", "\u{663}", "\u{ff19}", "1.0", "9223372036854775808", "-9223372036854775809", "00",
+    // booleans
+    "true", "YES", "yes", "no", "0", "1",
+    // syntax of the other formats, comments, separators
+    "@comment x", "@cwd /", "$NetBSD$", "$NetBSD: x $", "#x", "a=b=c", "=x", "x=", "a\\", "\\n", "a\tb", "\u{feff}x", "x\u{feff}", "a  b", "a ,b", "a,b",
+    "A", "a/", "PKGNAME=x", "COMMENT=", 
+    // URL-ish and shell-ish
+    "http://x/y/../z", "HTTP://X", "x%20y", "~", "${V}", "$(V)", "'q'", "\"q\"", "a;b", "a|b",
+];
+
+/// Strings in which every byte offset from `char_len` up to `bytes` falls inside a
+/// multi-byte character for at least one member: `k` ASCII bytes followed by
+/// repetitions of one 2-, 3- or 4-byte character, for every `k` below the
+/// character's length.
+pub fn straddles(bytes: usize) -> Vec<String> {
+    let mut out = vec![];
+    for ch in ['\u{e9}', '\u{65e5}', '\u{1f600}'] {
+        for k in 0..ch.len_utf8() {
+            let mut s = "a".repeat(k);
+            while s.len() < bytes {
+                s.push(ch);
+            }
+            out.push(s);
+        }
+    }
+    out
+}
